@@ -235,7 +235,7 @@ def expr(ctx: Ctx, e, want=None) -> str:
                 t = "Rat"
             else:
                 raise Untranslatable(f"true division in {t} context: {seg(ctx, e)}")
-        if isinstance(e.op, ast.Sub) and t == "Nat":
+        if isinstance(e.op, ast.Sub) and t == "Nat" and not getattr(ctx, "nat_sub", False):
             raise Untranslatable(f"subtraction on Nat: {seg(ctx, e)}")
         return f"({expr(ctx, e.left, t)} {BINOPS[type(e.op)]} {expr(ctx, e.right, t)})"
     if isinstance(e, ast.UnaryOp):
@@ -418,6 +418,10 @@ def call(ctx, e, want):
         w = want if want in NUMERIC else (ctx.default_num or "Nat")
         inner = f"(({expr(ctx, args[0])}).length : Nat)"
         return inner if w == "Nat" else f"({inner} : {w})"
+    if fn == "sum" and len(args) == 1 and (infer(ctx, args[0]) or lookup_type(ctx, args[0])) == "List Bool":
+        inner = f"(List.countP id {expr(ctx, args[0])})"
+        w = want if want in NUMERIC else "Nat"
+        return inner if w == "Nat" else f"(({inner} : Nat) : {w})"
     if fn == "sum" and len(args) == 1:
         a0 = args[0]
         if isinstance(a0, (ast.GeneratorExp, ast.ListComp)) and len(a0.generators) == 1 and infer(ctx, a0.elt) == "Bool":
@@ -724,8 +728,11 @@ def block(ctx: Ctx, stmts, ret_wrap, ind="  ") -> str:
                 + f"\n{ind}else\n{ind}  "
                 + block(ctx, list(s.orelse) + rest, ret_wrap, ind + "  ")
             )
-        # join on the assigned variables
-        vs = assigned(s.body + s.orelse)
+        # join on the assigned variables (targets of nested loops are local to those loops)
+        loop_targets = {n.id for st in s.body + s.orelse for f in ast.walk(st) if isinstance(f, ast.For) for n in ast.walk(f.target) if isinstance(n, ast.Name)}
+        plain = {n.id for st in s.body + s.orelse for a in ast.walk(st) if isinstance(a, (ast.Assign, ast.AnnAssign, ast.AugAssign))
+                 for t_ in (a.targets if isinstance(a, ast.Assign) else [a.target]) for n in ast.walk(t_) if isinstance(n, ast.Name)}
+        vs = [v for v in assigned(s.body + s.orelse) if v not in loop_targets or v in plain]
         if not vs:
             return block(ctx, rest, ret_wrap, ind)
         def yield_block(st, what):
@@ -942,6 +949,7 @@ def for_loop(ctx, node, rest, ret_wrap, ind):
     sub.loop_counter = ctx.loop_counter
     sub.join = getattr(ctx, "join", "scalar")
     sub.raisers = getattr(ctx, "raisers", {})
+    sub.nat_sub = getattr(ctx, "nat_sub", False)
     sub.defined = set(getattr(ctx, "defined", set())) | set(tgt_types)
     sub.ctl = {"continue": lambda: rec.strip(), "break": lambda: done}
     sub.fall = lambda: rec.strip()
@@ -1051,6 +1059,7 @@ def translate_function(
     returns_var=None,
     join="scalar",
     raisers=None,
+    nat_sub=False,
 ):
     """Translate function `qual` (or a statement slice of it) into one Lean definition."""
     tree = ast.parse(source)
@@ -1085,6 +1094,7 @@ def translate_function(
     ctx.defined = set()
     ctx.join = join
     ctx.raisers = {norm(k): v for k, v in (raisers or {}).items()}
+    ctx.nat_sub = nat_sub
     body = block(ctx, stmts, wrap)
     sig = " ".join((f"{{{k[1:-1]} : {v}}}" if k.startswith("{") else k if k.startswith("[") else f"({li(k)} : {v})") for k, v in list(extra_params) + list(params.items()))
     return "\n".join(ctx.aux) + ("\n" if ctx.aux else "") + f"def {lean_name} {sig} : {rty} :=\n  {body}\n"
